@@ -84,6 +84,25 @@ func genC12(seed uint64, tier string) *plan.Plan {
 			pl.Cfg["stop_ms"] = from + length
 		}
 	}
+	if pl.Cfg["transport"] == 0 && r.IntN(5) == 0 {
+		// A peer whose connection is reset while the collector still holds messages of it, and which
+		// connects again at once from the same address and port: whatever the collector still has to do
+		// for the dead connection, the new one is a session of its own.
+		pl.Ops = pl.Ops[:0]
+		nc = 1 + r.IntN(3)
+		pl.Cfg["clients"] = int64(nc)
+		for c := 0; c < nc; c++ {
+			style := "reuse"
+			if c > 0 && r.IntN(2) == 0 {
+				style = "close"
+			}
+			pl.Ops = append(pl.Ops, plan.Op{K: "client", T: c, A: int64(r.IntN(5)), B: int64(4 + r.IntN(12)), C: int64(1 + r.IntN(3)), D: int64(r.IntN(3) * 500), S: style})
+		}
+		if r.IntN(4) > 0 {
+			pl.Ops = append(pl.Ops, plan.Op{K: "stall", A: int64(r.IntN(8)), B: int64(5 + r.IntN(100))})
+		}
+		pl.Cfg["stop_ms"] = 0
+	}
 	genSchedule(r, pl, 6, 6000)
 	return pl
 }
@@ -170,8 +189,16 @@ func runC12(pl *plan.Plan, out *plan.Outcome) {
 			}
 		}
 	})
-	sent := make([]int, len(clients))      // records fully written per client
-	finished := make([]bool, len(clients)) // client closed orderly after sending everything
+	// a "reuse" client has a second connection, accounted for as a client of its own (index nReal+T)
+	nReal := len(clients)
+	all := append([]plan.Op(nil), clients...)
+	for _, op := range clients {
+		sh := op
+		sh.T, sh.S = nReal+op.T, "reuse-second"
+		all = append(all, sh)
+	}
+	sent := make([]int, len(all))      // records fully written per client
+	finished := make([]bool, len(all)) // client closed orderly after sending everything
 	stay := make(chan struct{})
 	clientDone := make(chan int, len(clients))
 	for _, op := range clients {
@@ -206,6 +233,10 @@ func runC12(pl *plan.Plan, out *plan.Outcome) {
 				env.Count("fault.mute_client", 1)
 				Block("stay", func() { <-stay })
 				c.Close()
+				return
+			}
+			if op.S == "reuse" && tr == 0 {
+				c12Reuse(env, op, nReal, addr, sent, finished)
 				return
 			}
 			tm := c12Template(op.T)
@@ -378,11 +409,11 @@ func runC12(pl *plan.Plan, out *plan.Outcome) {
 				break
 			}
 		}
-		if c >= 0 && c < len(sent) && len(ns) > sent[c]+int(clients[c].C) {
+		if c >= 0 && c < len(sent) && len(ns) > sent[c]+int(all[c].C) {
 			env.Violate("more-than-sent", "", "client %d: %d records delivered, %d sent", c, len(ns), sent[c])
 		}
 	}
-	for c, op := range clients {
+	for c, op := range all {
 		if tr != 1 && finished[c] && cfgOr(pl, "stop_ms", 0) == 0 && len(per[c]) != sent[c] {
 			env.Violate("lost-message", transportNames[tr], "client %d closed its connection after sending %d records (%s), %d were delivered", c, sent[c], op.S, len(per[c]))
 		}
@@ -397,6 +428,66 @@ func runC12(pl *plan.Plan, out *plan.Outcome) {
 		out.Hash = fmt.Sprintf("seed-%d", pl.Seed)
 	}
 	out.Sample = map[string]any{"transport": transportNames[tr], "clients": len(clients), "records_delivered": total, "stop_ms": cfgOr(pl, "stop_ms", 0)}
+}
+
+// c12Reuse: the first connection pipelines its share of the messages and is reset; the second one is
+// dialled from the same local address at once, announces its own template (another observation
+// domain, so deliveries are attributable) and sends the rest, then closes in an orderly way.
+func c12Reuse(env *Env, op plan.Op, nReal int, addr string, sent []int, finished []bool) {
+	var c1 *simnet.Conn
+	var err error
+	Block("dial", func() { c1, err = env.Net.Dial("tcp", addr) })
+	if err != nil {
+		env.Count("c12.dial_failed", 1)
+		return
+	}
+	send := func(conn net.Conn, idx, msgs int) bool {
+		tm := c12Template(idx)
+		var werr error
+		Block("write", func() { _, werr = conn.Write(tm.templateMsg(ipfixref.Header{})) })
+		if werr != nil {
+			return false
+		}
+		n := 0
+		for m := 0; m < msgs; m++ {
+			var body []byte
+			for k := 0; k < int(op.C); k++ {
+				var rb [12]byte
+				binary.BigEndian.PutUint32(rb[0:4], uint32(idx))
+				binary.BigEndian.PutUint64(rb[4:12], uint64(n+k))
+				body = append(body, rb[:]...)
+			}
+			Block("write", func() { _, werr = conn.Write(tm.dataMsg(ipfixref.Header{Sequence: uint32(n)}, body)) })
+			if werr != nil {
+				return false
+			}
+			n += int(op.C)
+			sent[idx] = n
+		}
+		return true
+	}
+	first := 1 + int(op.B)/2
+	if !send(c1, op.T, first) {
+		return
+	}
+	if op.D > 0 {
+		env.Sleep(time.Duration(op.D) * time.Microsecond)
+	}
+	local := c1.LocalAddr().(*net.TCPAddr)
+	c1.Abort()
+	env.Count("fault.reset_then_reconnect_same_address", 1)
+	var c2 *simnet.Conn
+	Block("dial", func() { c2, err = env.Net.DialFrom("tcp", addr, local) })
+	if err != nil {
+		env.Count("c12.dial_failed", 1)
+		return
+	}
+	if !send(c2, nReal+op.T, int(op.B)) {
+		return
+	}
+	env.Sleep(time.Millisecond)
+	Block("close", func() { c2.Close() })
+	finished[nReal+op.T] = true
 }
 
 func head2(a []int, n int) []int {
